@@ -30,7 +30,8 @@ THEOREMS = [P + t for t in [
     "add_layout_words", "pow_word_base_never_resizes", "pow_dword_base_never_resizes",
     "skeleton_ops_ok_round4b", "skeleton_ops_ok_sqrt_rem", "max_layout_serves_each", "skeleton_ops_ok_ibig_bits",
     "skeleton_ops_ok_round5", "gcd_skeleton_value_is_c12_loop", "sqrt_leftover_is_kernel_state",
-    "scratch_formulas_regenerated", "memory_end_does_not_wrap"]] + [
+    "scratch_formulas_regenerated", "memory_end_does_not_wrap",
+    "skeleton_ops_ok_round6", "euclid_fix_sub_no_panic"]] + [
     "Dashu.Props.C17Link." + t for t in ["gcd_skeleton_kernel_is_c12", "rawToAscii_ascii", "digit_writer_all_writes_in_bounds",
                                          "digit_writer_write_keeps_len"]]
 
@@ -84,6 +85,18 @@ REFINED = [
     "value, in a copy by reference, push_resizing(1) on carry); UBig div_euclid / rem_euclid / div_rem_euclid (forward to the "
     "div / rem / div_rem repr functions) and DivRemAssign::div_rem_assign (mem::take + div_rem, forms av / ar) driven against the "
     "div / rem / div_rem skeletons",
+    "round 6 storage skeletons (Model/Mem/Arith5.lean, same tie: exact allocator event stream): IBig's Euclidean division family — "
+    "DivEuclid::div_euclid, RemEuclid::rem_euclid (-> UBig), DivRemEuclid::div_rem_euclid (-> (IBig, UBig)) of IBig in all four "
+    "ownership forms and sign pairs (div_ops.rs impl_ibig_div_euclid / impl_ibig_rem_euclid / impl_ibig_divrem_euclid: the UBig "
+    "div_rem / % skeleton on the magnitudes — with the divisor only BORROWED (`mag1.as_ref()`) when the dividend is negative, "
+    "whatever the form; for a non-zero remainder `q.into_typed().add_one()` (add_dword / add_large_one in the quotient's own buffer, "
+    "push_resizing(1) on carry) and the by-value subtraction `mag1 - r.into_typed()` (the UBig - UBig skeleton with the divisor as "
+    "LEFT operand: sub_large in the divisor's buffer by value, sub_large_ref_val growing the remainder's buffer by reference, "
+    "sub_large_dword); the unused remainder of div_euclid and an unused by-value divisor are dropped at the end of the block, also "
+    "when division by zero unwinds); theorem euclid_fix_sub_no_panic: the subtraction's panic_negative_ubig arm is dead; "
+    "IBig DivRemAssign::div_rem_assign (mem::take + div_rem, forms av / ar) driven against the IBig div_rem skeleton; "
+    "primitive-operand forms `UBig op u64|u128` / `&UBig op u64|u128` for + - * / | ^ (helper_macros.rs impl_binop_with_primitive: "
+    "`self.op(UBig::from(rhs)).try_into().unwrap()`) driven against the by-value-rhs skeletons with an inline right operand",
     "memory.rs:58 MemoryAllocation::memory(): `start.wrapping_add(layout.size())` does not wrap (theorem memory_end_does_not_wrap; "
     "the one allocator fact used — the block lies inside the address space — is an explicit hypothesis)",
     "fmt/digit_writer.rs DigitWriter::{write, flush} (the only hand-indexed byte buffer of the formatting path and its "
@@ -110,9 +123,10 @@ FRONTIER = [
     "NOT modelled: arch/*/add.rs intrinsics (safe code: `core::arch` add-with-carry intrinsics on values, no pointer; owned by C19's "
     "Gen/ArchAdd tie)",
     "arithmetic skeletons NOT mirrored op by op: nth_root for n >= 3 (a Newton loop over the PUBLIC operations pow / div / mul / "
-    "add whose skeletons are mirrored, but the primitive-operand forms `x * usize`, `/ usize` it uses are not), "
-    "IBig's Euclidean division family (div_euclid / rem_euclid / div_rem_euclid of IBig: a second add_one / subtraction on the "
-    "div_rem results), the primitive-operand forms, to_*_bytes (a Vec<u8>, not a word "
+    "add whose skeletons are mirrored; its primitive-operand forms `x * usize`, `/ usize` are the same macro as the u64 / u128 forms "
+    "driven since round 6, but the loop itself is not mirrored), "
+    "the remaining primitive-operand forms (`primitive op UBig`, `% primitive` returning a primitive, signed primitives, IBig "
+    "with primitives, op= primitive: all `<$t>::from(primitive)` + the mirrored operator), to_*_bytes (a Vec<u8>, not a word "
     "buffer) and parsing/printing; they are covered by the general theorem only through their final Repr::from_buffer / from_dword "
     "(any history of Buffer ops followed by from_buffer is canonical) and by the value-level exploration",
     "gcd / gcd_ext / sqrt skeletons: that lehmer.rs / root.rs stay inside the slices they are handed (`x[..y.len()]`, `t0[..qt1_len]`, "
@@ -144,6 +158,11 @@ RULE = ("mem.buf: typed histories of 1..40 operations over 8 registers (empty | 
         "skeleton): operand lengths 0..40 (thorough 60, scratch classes up to 800) words x patterns x forms per operation; round 5: "
         "`!IBig` (all-ones carries, powers of two losing a word), sqrt (7 patterns, roots with zero low half, q_top, k^2-1/k^2/k^2+1 for k of every bit length), gcd/gcd_ext of UBig, IBig and mixed pairs (coprime, common "
         "factor of 1..4 words, divides, equal, +-1, shifted, Fibonacci pairs, (0,0), scratch and double-word-guess thresholds); "
+        "round 6: IBig div_euclid / rem_euclid / div_rem_euclid (4 forms x sign pairs x lengths 0..17 (thorough 40) on both sides; "
+        "remainder 0 / 1 / |b|-1 / random under a negative dividend, quotient 2^(64k)-1 so that add_one carries out of the inline form "
+        "or into a new word, |a| < |b| with cancelling high words, zero divisor in every form and sign, divide-and-conquer sizes), "
+        "IBig div_rem_assign, `UBig / &UBig op u64 / u128` for + - * / | ^ (primitives at 0, 1, 2, 2^64-2..2^64+1, 2^127, 2^128-2, 2^128-1, "
+        "the low words of the lhs and their complement: carry into a new word, borrow to fewer words, underflow, x0, /0); "
         "E1 extremes: every usize argument of shl/shr/ishl/ishr/set_bit/clear_bit/clear_high_bits/split_bits/pow at 0, 1, W-1..2W, "
         "2^31, 2^32-1, 2^32, 2^32+k, 2^63, usize::MAX-k (growth operations only where the result is small or the request exceeds "
         "MAX_CAPACITY: the documented allocation panic is compared). mem.policy: default/max_compact "
@@ -193,7 +212,7 @@ LEVEL_TEXT = ("Machine-checked Lean 4 theorems over an executable ledger model o
               "memory.rs layout arithmetic (array_layout/add_layout/max_layout, MemoryAllocation::new/Drop) is proved valid, its "
               "allocate_too_much arm dead, add_layout sufficient for its two bump consumers. PARTIAL: Rust-level UB beyond "
               "bounds/lifetime (aliasing, transmute validity, uninitialised reads) is not decided by proof; nth_root (n >= 3), parsing/printing, "
-              "IBig's Euclidean division and the primitive-operand forms are covered only through their final from_buffer and explored by "
+              "and the primitive-operand forms other than `UBig op u64|u128` are covered only through their final from_buffer and explored by "
               "value-level histories with invariant checks and by Miri runs of the same histories; that a skeleton never hits an "
               "internal assert is observed, not proved (except the pow result-buffer length bound).")
 LEVEL_NOTE = ("Trusted: Lean kernel; axioms propext/Classical.choice/Quot.sound; vlib/extract.py for the two policy formulas; the "
@@ -1707,6 +1726,32 @@ def round6_cases(rng, tier):
                     for o in ops:
                         if tier == "thorough" or rng.random() < 0.5:
                             yield Case("mem.arith", [o, f, hx(-a), hx(rng.choice([1, -1]) * b)])
+    # DivRemAssign::div_rem_assign of IBig (mem::take + div_rem, the quotient replaces the lhs): sign pairs x lengths
+    for la in dl:
+        for lb in dl:
+            a = operand(la, rng.choice(["random", "ones", "topone"]))
+            b = operand(lb, rng.choice(["random", "one", "pow2", "highbit"]))
+            if rng.random() < 0.2 and b:
+                a = a - a % b
+            yield Case("mem.arith", ["idivremassign", rng.choice(["av", "ar"]), hx(rng.choice([1, -1]) * a), hx(rng.choice([1, -1]) * b)])
+    yield Case("mem.arith", ["idivremassign", "av", hx(-operand(4, "random")), hx(0)])
+    yield Case("mem.arith", ["idivremassign", "ar", hx(-operand(70, "random")), hx(operand(34, "random"))])
+    # UBig op primitive / &UBig op primitive (impl_binop_with_primitive: self.op(UBig::from(rhs))): u64 / u128 right operands at the
+    # word boundaries x lhs lengths across the inline boundary; carry into a new word, borrow down to fewer words / to inline,
+    # underflow panic, multiplication by 0 / 1 / a dword that fills the capacity, division by 0 / 1 / a divisor > lhs
+    M64, M128 = (1 << 64) - 1, (1 << 128) - 1
+    pl = [0, 1, 2, 3, 4, 5, 9, 17] if tier == "quick" else [0, 1, 2, 3, 4, 5, 6, 8, 9, 12, 17, 24, 40]
+    for _ in range(reps):
+        for la in pl:
+            for pat in ("random", "ones", "pow2", "topone"):
+                a = operand(la, pat)
+                prims = [0, 1, 2, M64 - 1, M64, M64 + 1, M64 + 2, 1 << 127, M128 - 1, M128, rng.getrandbits(64) | 1,
+                         rng.getrandbits(128) | (1 << 100), a & M64, a & M128, (a & M128) + 1, ((1 << (64 * la)) - a) & M128]
+                for pv in sorted(set(x for x in prims if 0 <= x <= M128)):
+                    for o in ("padd", "psub", "pmul", "pdiv", "por", "pxor"):
+                        if rng.random() < (0.3 if tier == "quick" else 0.8):
+                            wide = pv > M64 or rng.random() < 0.3
+                            yield Case("mem.arith", [o, rng.choice("vr") + ("128" if wide else "64"), hx(a), hx(pv)])
     # zero divisor: every op, form, dividend sign and size
     for o in ops:
         for f in forms:
